@@ -26,7 +26,8 @@ EXTENDS DesignSpace
 CONSTANTS AsCoded,   \* subset of {"D1","D3","D15","D16"}; {} = the repaired rules
           Vias,      \* subset of {"add","extend","from"}: how a variable is added
           Forms,     \* subset of {"array","dict"}: argument form of set_current_value
-          QKinds     \* subset of {"normalize","unnormalize","round","project"}: which call fills the normalisation data
+          QKinds,    \* subset of {"normalize","unnormalize","round","project"}: which call fills the normalisation data
+          FilterModes \* subset of {"inplace","copy"}: filter(keep) on the object itself or on the copy it returns
 
 VARIABLES n2i, dimC, policy, normValid, lbC, ubC, maskC, intC, hasCur, curArrC, normCurC
 implvars == <<vars, intNorm, n2i, dimC, policy, normValid, lbC, ubC, maskC, intC, hasCur, curArrC, normCurC>>
@@ -76,7 +77,9 @@ RemoveVariable(n) ==
   /\ Invalidate /\ UpdateMeta
 
 \* filter(keep) = remove_variable for every other variable
-FilterVariables(keep) ==
+\* (mode "copy": filter(keep, copy=True) returns a filtered deep copy - caches included - and leaves the original alone;
+\*  the behaviour continues with the copy)
+FilterVariables(keep, mode) ==
   /\ Filter(keep)
   /\ LET rg == RangesOf(vars') IN
        /\ n2i' = [m \in keep |-> rg[CHOOSE i \in 1..Len(vars') : vars'[i].name = m]]
@@ -170,7 +173,7 @@ INext ==
   \/ \E t \in TemplateIds, wv \in BOOLEAN, via \in Vias : AddVariable(t, wv, via)
   \/ \E n \in Names : RemoveVariable(n)
   \/ \E n \in Names : RenameVariable(n)
-  \/ \E keep \in SUBSET Names : FilterVariables(keep)
+  \/ \E keep \in SUBSET Names, mode \in FilterModes : FilterVariables(keep, mode)
   \/ \E n \in Names, S \in SUBSET (1..3) : FilterDimensions(n, S)
   \/ \E n \in Names, b \in LBSet : SetLowerBound(n, b)
   \/ \E n \in Names, b \in UBSet : SetUpperBound(n, b)
@@ -203,4 +206,11 @@ CurCacheCoherence ==
   /\ (normCurC # <<>> => (HasCur /\ normCurC = NormCur))
 \* invalid caches are empty (the normal form this model uses)
 NormalForm == (~normValid => (maskC = <<>> /\ intC = <<>>)) /\ (~hasCur => (curArrC = <<>> /\ normCurC = <<>>))
+\* (guarded versions for the depth-bounded exhaustive run, see DesignSpace!TypeOKB)
+IndexCoherenceB == InBound => IndexCoherence
+PolicyCoherenceB == InBound => PolicyCoherence
+NormCacheCoherenceB == InBound => NormCacheCoherence
+MemberCacheCoherenceB == InBound => MemberCacheCoherence
+CurCacheCoherenceB == InBound => CurCacheCoherence
+NormalFormB == InBound => NormalForm
 ==============================================================================
